@@ -3,6 +3,7 @@ package pts
 import (
 	"bufio"
 	"errors"
+	"fmt"
 	"io"
 	"strconv"
 	"strings"
@@ -56,13 +57,15 @@ func ReadPointCloud(in io.Reader) (*modeling.Mesh, error) {
 
 		contents := strings.Fields(line)
 
-		if len(contents) > 2 {
-			pos, err := ParseVec3(contents[0], contents[1], contents[2])
-			if err != nil {
-				return nil, err
-			}
-			readVerts[curLine] = pos
+		if len(contents) < 3 {
+			return nil, fmt.Errorf("pts point %d has %d fields, expected at least 3: %w", curLine, len(contents), io.ErrUnexpectedEOF)
 		}
+
+		pos, err := ParseVec3(contents[0], contents[1], contents[2])
+		if err != nil {
+			return nil, err
+		}
+		readVerts[curLine] = pos
 
 		if len(contents) > 3 {
 			i, err := strconv.ParseFloat(contents[3], 64)
@@ -87,6 +90,10 @@ func ReadPointCloud(in io.Reader) (*modeling.Mesh, error) {
 
 	if scanner.Err() != nil {
 		return nil, scanner.Err()
+	}
+
+	if curLine < parsedCount {
+		return nil, fmt.Errorf("pts declares %d points but only %d were found: %w", parsedCount, curLine, io.ErrUnexpectedEOF)
 	}
 
 	v3Data := make(map[string][]vector3.Float64)
